@@ -189,6 +189,8 @@ def logger_rules(chk):
     test_is_function = False
     table_defs = {}
     for nm, node in mod.defs.items():
+        if isinstance(node, ast.AnnAssign) and node.value is not None and isinstance(node.target, ast.Name):
+            node = ast.Assign(targets=[node.target], value=node.value)  # `_FIELDS: Final = _WarnMap(...)`
         table_defs[nm] = (node, False)
         if isinstance(node, ast.FunctionDef) and not node.args.args and not node.args.kwonlyargs and not node.args.vararg and not node.args.kwarg:
             # built on demand:  def _test_fields(): return _WarnMap(value=..., demand=..., ...)
